@@ -57,6 +57,7 @@ class CoreGen(progs.ProgGen):
         self.defined = set()
         self.fdefined = set()
         self.fn_locals = []      # named parameters readable right here (directly in a function body)
+        self.exit_ctx = None     # where an X / x written here would belong: None | "for" | "while" | "lam"
 
     def num(self):
         r = self.rng
@@ -65,6 +66,8 @@ class CoreGen(progs.ProgGen):
     def atom(self, indef, pure):
         r = self.rng
         x = r.random()
+        if self.exit_ctx is not None and x < 0.07:
+            return self.exit_piece()
         if x < 0.30:
             return self.num() + " "
         if x < 0.74:
@@ -91,8 +94,53 @@ class CoreGen(progs.ProgGen):
             return "@" + r.choice(self.fnames) + ";"
         return r.choice(PURE_ELEMENTS)
 
-    def seq(self, d, indef, pure, lo=0):
-        return "".join(self.item(d, indef, pure) for _ in range(self.rng.randrange(lo, self.max_items + 1)))
+    def seq(self, d, indef, pure, lo=0, ctx="same"):
+        """ctx: the exit context of this statement list ("same" = inherited, as through an if)"""
+        saved = self.exit_ctx
+        if ctx != "same":
+            self.exit_ctx = ctx
+        try:
+            out = ""
+            for _ in range(self.rng.randrange(lo, self.max_items + 1)):
+                piece = self.item(d, indef, pure)
+                out += piece
+                if piece and piece[0] in "v&~ßƒɖ₌₍⁽‡≬" or any(m in piece for m in "v&~ßƒɖ₌₍"):
+                    # the parser gives everything after a modifier (through ifs) the modifier as parent
+                    self.exit_ctx = None
+            return out
+        finally:
+            self.exit_ctx = saved
+
+    def exit_piece(self):
+        """an early exit that the core covers at this place, or ''"""
+        r = self.rng
+        c = self.exit_ctx
+        if c == "for":
+            return r.choice(["X", "x", "n2=[X]", "n3=[x]", "n2>[X]", ":[X]", "n1=[x]"])
+        if c == "while":
+            return r.choice(["X", ":3=[X]", ":[|X]", "!4>[X]"])
+        if c == "lam":
+            return r.choice(["X", ":[X]", ":2<[X]", "n[X]", ":[|X]"])
+        return ""
+
+    def recursive_lambda(self, pure):
+        """recursion with a base case, early return from nested ifs, x as the operand of a modifier"""
+        r = self.rng
+        n = r.choice(["3 ", "4 ", "5 ", "2 ", "n "])
+        lam = r.choice([
+            "λ:[:‹x*|_1];",              # factorial
+            "λ:[:‹x+];",                 # triangular numbers
+            "λ:2<[X]:‹x$2-x+;",          # Fibonacci with an early return
+            "λ:1>[‹x›|X];",
+            "λ:[‹:ßx];",                 # x as the operand of ß: the enclosing lambda
+            "λ:2>[:3>[X|d]|N];",         # early return from nested ifs
+            "λ:[:‹x" + ("" if pure else ",") + "];",
+            "λ:0>[‹x|X]9;",
+            "λ2|:[$‹$x|_];",
+            "λ:[:‹x\"|w];",
+        ])
+        call = r.choice(["†", "†", "†", "M", ""])
+        return n + lam + call
 
     def _single(self, d, indef=True, pure=False):
         """exactly one structure (a modifier operand)"""
@@ -166,12 +214,35 @@ class CoreGen(progs.ProgGen):
             return out + "W"
         return out
 
+    def arity_mismatch(self, pure):
+        """a lambda CALLED with another number of arguments than it was written with, whose body reads `n`:
+        reduce / scan call with two, map / filter / sort-by with one, & with one"""
+        r = self.rng
+        use = r.choice(["n", "n∑", "nL", "n W", "nh", "n‹", "n:_", "!n\"", "nf"])
+        k = r.randrange(6)
+        lst = r.choice(["⟨1|2|3⟩", "⟨3|1|2⟩", "4 ", "⟨2|5⟩"])
+        if k == 0:
+            return lst + r.choice(["ƒ", "ɖ"]) + r.choice(["λ" + use + ";", "λ3|" + use + ";", "λ0|" + use + ";", "⁽n", "‡n∑", "‡nL"])
+        if k == 1:
+            return lst + "λ" + r.choice(["2", "3", "0"]) + "|" + use + ";" + r.choice(["M", "F", "ṡ", "M", "F"])
+        if k == 2:
+            return r.choice(["1 2 ", "7 "]) + "&λ" + r.choice(["2", "3", "0"]) + "|" + use + ";¥"
+        if k == 3:
+            return lst + "ƒλ" + r.choice(["", "3|"]) + "n∑;" if r.random() < 0.5 else lst + "ɖλ" + r.choice(["", "3|"]) + "nL;"
+        if k == 4:
+            return r.choice(["3", "2"]) + "(" + lst + "ƒλ" + use + ";" + ("" if pure else ",") + ")"
+        return lst + "λ2|" + use + ";" + r.choice(["→f ←f M" if not pure else "M", "M"])
+
     def item(self, d, indef, pure):
         r = self.rng
         x = r.random()
-        if d > 0 and x < 0.05:
+        if d > 0 and 0.13 <= x < 0.16:
+            return self.arity_mismatch(pure)
+        if d > 0 and x < 0.04:
+            return self.recursive_lambda(pure)
+        if d > 0 and 0.04 <= x < 0.08:
             return self.context_while(d, pure)
-        if d > 0 and x < 0.11:
+        if d > 0 and 0.08 <= x < 0.13:
             return self.modified_lambda(d, pure)
         if d <= 0 or x < 0.62:
             return self.atom(indef, pure)
@@ -211,10 +282,10 @@ class CoreGen(progs.ProgGen):
         r = self.rng
         k = r.randrange(14)
 
-        def b(i=indef, p=pure, lo=0):
+        def b(i=indef, p=pure, lo=0, ctx="same"):
             if k not in (0, 1, 2, 3, 4):
-                return self.nested(lambda: self.seq(d - 1, i, p, lo))
-            return self.seq(d - 1, i, p, lo)
+                return self.nested(lambda: self.seq(d - 1, i, p, lo, ctx if ctx != "same" else None))
+            return self.seq(d - 1, i, p, lo, ctx)
         if k in (0, 1):
             out = "[" + b()
             for _ in range(r.choice([0, 1, 1, 1, 2, 3])):
@@ -224,20 +295,23 @@ class CoreGen(progs.ProgGen):
             out = "("
             if r.random() < 0.3 and not indef and not pure:
                 out += r.choice(["i", "a"]) + "|"
-            return out + b() + ")"
+            body = b(ctx="for")
+            # an unbalanced early exit shows in what `n` means AFTER the loop
+            tail = ("n" if pure else r.choice(["n,", "n", "n…"])) if ("X" in body or "x" in body) and r.random() < 0.6 else ""
+            return out + body + ")" + tail
         if k == 4:
             # while loops: mostly counting-down shapes so that they terminate
             x = r.random()
             if x < 0.6:
-                return "{:|" + b() + "‹}"
+                return "{:|" + b(ctx="while") + "‹}"
             if x < 0.8:
-                return "{" + b(lo=1) + "|" + b() + "}"
-            return "{:0>|" + b() + "‹}"
+                return "{" + b(lo=1, ctx=None) + "|" + b(ctx="while") + "}"
+            return "{:0>|" + b(ctx="while") + "‹}"
         if k in (5, 6):
             out = "λ"
             if r.random() < 0.5:
                 out += str(r.choice([0, 1, 1, 2, 2, 3])) + "|"
-            out += b(True, pure) + ";"
+            out += b(True, pure, ctx="lam") + ";"
             x = r.random()
             return out + ("†" if x < 0.45 else "M" if x < 0.55 else "F" if x < 0.62 else "")
         if k == 7:
@@ -254,7 +328,7 @@ class CoreGen(progs.ProgGen):
             params = r.choice(["", ":1", ":2", ":1:1", ":0", ":3", ":p", ":p:q", ":1:p", ":p:2", ":p:p", ":*", ":p:*", ":*:1"])
             saved, self.fn_locals = self.fn_locals, [x for x in ("p", "q") if x in params]
             try:
-                body = self.seq(d - 1, True, False)
+                body = self.seq(d - 1, True, False, 0, None)
             finally:
                 self.fn_locals = saved
             self.fdefined.add(name)
@@ -268,7 +342,9 @@ class CoreGen(progs.ProgGen):
     def program(self, depth=3):
         self.defined = set()
         self.fdefined = set()
-        return self.seq(depth, False, False, 1)
+        self.exit_ctx = None
+        head = self.rng.choice(["x", "1 2 x", "3 x", "X"]) if self.rng.random() < 0.03 else ""
+        return head + self.seq(depth, False, False, 1, None)
 
 
 SEEDS = [
@@ -290,6 +366,13 @@ SEEDS = [
     "3(0{:n<|›},)", "⟨2|4⟩ƛ0{:n<|›};", "3 λ0{:n<|›};†", "2(3(0{:n<|:,›}))", "4 '0{:n<|›}2<;", "3(n λ0{:n<|›};†,)", "3(1{:n=¬|›},)",
     "4 3 ~λ2|_;", "4 3 ~λ2|+_;", "3(4 n ~λ2|_;,)", "4 3 ~λ2|$_;", "1 2 3 ~λ3|__;", "4 3 ~λ2|_λ›;†;", "4 3 &λ2|_;¥", "4 3 ₌λ2|_;λ2|+_;", "4 3 ₍λ2|_;λ1|_;",
     "⟨1|2|3⟩ 5 vλ2|_;", "⟨1|2|3⟩ ƒλ2|_;", "⟨1|2|3⟩ ɖλ2|$_;", "1 4 3 ßλ2|_;", "⟨4|5⟩ ~λ1|_;", "4 3 ~λ2|W;", "4 3 ~λ2|;",
+    "⟨1|2|3⟩ ƒλn∑;", "⟨1|2|3⟩ ɖ‡n∑", "3 λ2|n;M", "3 λ2|n‹;F", "⟨3|1|2⟩ λ2|nN;ṡ", "⟨1|2|3⟩ ƒλ3|n∑;", "4 λ0|n;M", "1 2 &λ2|n;¥",
+    "@f:1|(⟨1|2|3⟩ƒλn∑;,);2 @f;", "⟨1|2|3⟩ ƒ⁽n",
+    "5(n3=[X]n,)", "5(n3=[x]n,)", "5(n3=[x]n,)n", "3(n2=[x])n W", "3(2(n1=[x])n,)", "3(2(n2=[X])n,)n", "4 λ3(n2=[x])n;†", "2(3(n2=[x]n,)n,)n",
+    "3 {:|:2=[X]‹}n W", "3(n[n2=[X]])n", "5 λ:[:‹x*|_1];†", "3 4 λ2|:[X]9;†", "0 4 λ2|:[X]9;†W", "1 5{:|:3=[X]‹}W", "4 λ3(n2=[X]n);†W",
+    "1 2 3 λ3|X;†W", "λX;†", "3(λnX;†,)", "3 λ:2<[X]‹x;†", "6 λ:2<[X]:‹x$2-x+;†", "3 λ:[‹:ßx];†", "1 2 x", "x", "1 2 X 3", "1[X]2",
+    "4(n λ:2>[:3>[X|d]|N];†,)", "3(2(n2=[X]n,)n,)", "3(n2=[x]2(n,))", "5 ƛλ:[:‹x+];†;", "4 λ:[:‹x,];†", "3 5 λ2|:[$‹$x|_];†",
+    "3 {:|:2=[X]:,‹}", "5(n[n2=[X]|0])W", "3(n1=[x|n,]7,)", "2 λ3(n2=[x]n)X9;†W", "3 λ:[‹x]n;†", "4 λ:[‹x:,]X;†", "3 λ1 ~λ2|X;;†W",
     "10 λ2|n;†", "1 2 λ2|n W;†", "3 4 @f:2|n;@f;", "@f:2|!;1@f;", "@f:0|n;@f;", "λ0|!;†", "3 λ0|?;†", "⟨?|?⟩", "5 ƛ⟨n|n⟩;",
 ]
 
@@ -504,7 +587,7 @@ def documented_expectations(env):
 INPUT_SETS = [[], ["3"], ["2", "5"], ["[1,2,3]"], ["4", "[5,6]"], ["0"], ["7", "1", "2"], ["[[1,2],3]", "2"]]
 STRUCT_CHARS = {"[": "if", "(": "for", "{": "while", "λ": "lambda", "ƛ": "map-lambda", "'": "filter-lambda", "⟨": "list",
                 "@": "function", "v": "mod-v", "&": "mod-&", "~": "mod-~", "ß": "mod-ß", "ƒ": "mod-ƒ", "ɖ": "mod-ɖ", "₌": "mod-₌",
-                "₍": "mod-₍", "⁽": "short-1", "‡": "short-2", "≬": "short-3", "→": "var-set", "←": "var-get", "†": "call"}
+                "₍": "mod-₍", "X": "X(break/return)", "x": "x(continue/recurse/print)", "⁽": "short-1", "‡": "short-2", "≬": "short-3", "→": "var-set", "←": "var-get", "†": "call"}
 MEANING = {0: "agree", 1: "DIFFER", 2: "outside-domain(EStuck)", 3: "out-of-fuel", 4: "guard(ENotCore)", 5: "not-core", 6: "no-parse"}
 
 
@@ -535,7 +618,8 @@ def build_items(env):
 def run(env):
     env.rule = ("programs of the core grammar (generator CoreGen: number literals, the 37 core elements, variables, function definitions / "
                 "calls with numeric / named / * parameters, if / for / while, lambdas λ ƛ ' µ and shorthands ⁽ ‡ ≬, list literals, modifiers "
-                "v & ~ ß ƒ ɖ ₌ ₍; nesting depth <= 3 quick, "
+                "v & ~ ß ƒ ɖ ₌ ₍, early exits X / x where the core covers them (break / continue in loops through ifs, early return and "
+                "recursion in plain lambdas incl. recursive templates with a base case, x as a modifier operand, x at top level); nesting depth <= 3 quick, "
                 "<= 4 thorough) plus hand-written seeds; each run = program x input list (8 lists of small ints / int lists) x one of the nine "
                 "flag sets; compared: final stack (top popped by the implicit output), stdout, error class. (1) Machine.exec vs implementation "
                 "-> disagreement; (2) RefSem.eval vs implementation -> the property fails; (3) exact text of transpile(). Both models are "
